@@ -17,6 +17,46 @@ CHECKS = {
          "From honest channel histories (0-3 payments, boundary balances) the harness reads the customer's real pay token and old state, then an independent prover (bls12_381 arithmetic, 18 digit proofs included) builds pay proofs for ~45 false variants per base: wrong public nonce, amount wrong on either balance or in only one of state/close state, foreign channel id, close-tag slot replaced, old/new lock mismatch, foreign/tampered/random token, old state richer than the token, and out-of-range balances (-1, 2^63) with the attacker's best digit constraints (residue, all-max, digit outside the alphabet under another digit's signature, negative digit). Strategies: honest-but-lying, answer-as-if-true, post-challenge choice of every scalar commitment and of the two revealed commitment scalars, iterated with the challenge read through the hook. Falsity is recomputed from what the forger holds; an alarm needs an exhibited witness. Positive control per base.",
          "Soundness is decided against this explicit forger family only. Trusts bls12_381, the pairing reference, the hook.",
          "DESIGN.md §4 C02"),
+ "C03": ("fault_enumeration",
+         "runtime monitoring: session driver with a fault injector at every merchant reply; independent reply classifier (pairing reference on values read from the state bytes); byte-image and closing-message monitors at every observation point",
+         "Histories of payments (either sign, zero, boundary amounts) are run with real customer stages against a real merchant; before the honest reply at each of the four replies the customer consumes, several faults from a 20-kind alphabet are injected (random pair, honest reply re-blinded / shifted / swapped, evil-merchant signatures - made with the merchant's own key and blinded for this customer's factor - on states with altered balance, channel id, lock or second slot, the other message type for the same state, second merchant key, right signature under a wrong blinding factor, replies recorded in other sessions and earlier payments, the all-identity signature produced by driving the real merchant with a zero randomiser). Monitors: state bytes identical after a refusal; no reply the independent check calls invalid is accepted and no valid one refused; after every call a closing message from a copy of the state passes the merchant's close check, carries the ledger's balances for that stage and a lock never disclosed; the lock message discloses exactly the old state's lock and only in the accepting step.",
+         "Reply types outside the alphabet are not observed. The independent classifier trusts bls12_381 pairings and the tracer's reading of the state layout.",
+         "DESIGN.md §4 C03"),
+ "C04": ("exploration",
+         "runtime monitoring: honest customer/merchant runs step by step against an i128 reference ledger",
+         "Channels with initial balances from the boundary lattice squared and random pairs run sequences of amounts drawn relative to the current balances (0, +-1, +-balance, +-(balance+1), +-(2^63-1), exact fill-ups to 2^63-1 and one beyond, random). Every in-range step must complete; every stage's reported balances and the closing message from every stage must equal the ledger (pre-payment while started, post-payment once locked) and pass the merchant's close check; the total is conserved; out-of-range payments must be refused with the matching error, leave the Ready state byte-identical, and the customer must be able to continue.",
+         "Trusts the 15-line i128 ledger. Histories are sampled, not enumerated.",
+         "DESIGN.md §4 C04"),
+ "C05": ("fault_enumeration",
+         "runtime monitoring: candidate (pair, blinding factor) matrix offered to the real complete_payment at every accepted payment; oracle = Pedersen opening recomputed from the commitment atom of the accepted pay proof; SHA3 recomputation for every decodable pair",
+         "At the completion point of every payment of real histories ~20 candidate combinations are offered in a row (right pair with bf+1 / random / zero / negated / bf of earlier payments; pair of the new state, of earlier payments, of another channel, of a session with another merchant, a fresh pair, each with the right bf or with their own) before the right one; the result must equal the reference opening check, the pending payment must survive every refusal, and the token finally issued must be accepted by the customer. Decoder: 4800+ encodings (honest, lock / secret / index altered, bit flips, secrets whose digest is not a canonical scalar, reference-recomputed pairs at any index): every pair that decodes must satisfy lock = SHA3(secret || index) and re-encode identically.",
+         "Trusts the SHA3 and Pedersen references.",
+         "DESIGN.md §4 C05"),
+ "C06": ("fault_enumeration",
+         "runtime monitoring: single-component substitution of verification tuples, cross-session replay and closing-message field substitution against the real verifiers; acceptance is the refutation",
+         "Honest establish and pay proofs are first accepted under their own tuple (positive control) and then offered with exactly one component replaced: merchant key / range parameters / revocation-commitment parameters (configurations recombined with from_parts so that one part differs), channel id (fresh, one bit), each balance +-1 / swapped / moved, nonce +1 / fresh, amount +-1 / negated / zero / doubled, context with a byte changed, appended, truncated or empty. Every merchant reply and proof recorded in one session is offered at every reply point of sessions on another channel and with another merchant. Closing messages collected at every stage of two channels get each field replaced by the value from an earlier / later state of the same channel or from the other channel, and balances +-1; all must fail the close check.",
+         "Only single-component substitutions and the listed near values.",
+         "DESIGN.md §4 C06"),
+ "C14": ("exploration",
+         "runtime monitoring: complete message log of multi-channel histories checked offline (no atom repeats; no state secret appears)",
+         "Groups of 2-4 channels are interleaved under one merchant with payments of either sign and zero, refused replies and closes from every stage that offers close(). Every message in both directions and the public parameters are logged as 32/48/96-byte atoms; the checker walks the log in order: no atom of a customer-to-merchant message may equal an atom of any earlier message or of the parameters (channel id and 8-byte balances exempt, as the property says), and none may equal a scalar held in the customer state before or after that step (blinding factors, unrevealed nonces, revocation secrets, balances as scalars) except what the step discloses by design.",
+         "Necessary condition for unlinkability only (exact-value reuse), not zero knowledge.",
+         "DESIGN.md §4 C14"),
+ "C18": ("exploration",
+         "runtime monitoring: scripted RNG that samples the close tag at chosen draws (draw log proves the rejection path ran); re-labelled signatures against the real close check and payment approval; single-input differential on the channel id",
+         "The 64-byte pattern that Scalar::random maps to the close tag is injected at every scalar draw of test_new_nonce and Requested::new (1-4 times in a row) and of Ready::start (quick: the first draws and a spread; thorough: all ~90); the generated nonce atoms must differ from the tag and the draw log must show the extra draw. Nonce atoms of every state of honest histories are checked; the tag itself must not decode as a nonce while its neighbours must. On every Ready state the pay token is re-labelled as closing signature (must fail the merchant's close check) and the closing signature as pay token (the resulting payment must be refused); both also by the pairing reference. ChannelId::new: identical inputs give identical ids and a change to exactly one of the five inputs changes the id.",
+         "The channel-id derivation function itself is not fixed by the property; equality with the harness's SHA3 recomputation is recorded as information only.",
+         "DESIGN.md §4 C18"),
+ "C19": ("exploration",
+         "runtime monitoring: scripted RNG with all-zero windows over every draw of each generator; outputs checked through their wire form (validators, pairings, discrete-log relations, signatures)",
+         "For KeyPair<N>, PedersenParameters<G,N>, RangeConstraintParameters and merchant::Config a dry run logs the draws; then every single draw and every run of 2-3 consecutive draws (scalar samples, field samples, sign words) is replaced by zeros (quick: capped sample for the 490-draw range parameters) plus random streams. Each output must pass its own decode-time validation, contain no zero secret scalar or identity element, satisfy X1=g^x, X~=g~^x, Y_i=g^{y_i}, Y~_i=g~^{y_i}, e(Y_i,g~)=e(g,Y~_i), e(X1,g~)=e(g,X~), sign-and-verify, validate(), every digit signature valid by the pairing reference, and a merchant built from it must complete an honest payment. The evidence states how many injected runs took a retry path.",
+         "The identity-rejection loop around Group::random is unreachable for any stream (bls12_381 itself never returns the identity), so it cannot be observed.",
+         "DESIGN.md §4 C19"),
+ "C20": ("exploration",
+         "runtime monitoring: lock-step twin execution (never-stored track vs track restored from bytes) under identical per-step randomness and identical merchant replies",
+         "C04-style histories are run on two tracks: B is replaced by decode(encode(state)) before every step (pass 1) or before a random third of the steps (pass 2), including immediately after refused bad replies at every reply point. Compared at every step: emitted messages byte for byte, accept / refuse and error variants, and closing messages obtained from copies of both tracks (fields, and bytes under identical randomness). A restore that fails to decode is a violation.",
+         "Histories are sampled. State images are compared only as a diagnostic (the property speaks of behaviour).",
+         "DESIGN.md §4 C20"),
  "C12": ("exploration",
          "runtime monitoring: differential over wire atoms - replace one first-message atom, challenge must move; merchant-side challenge observed through the challenge-recorder hook",
          "Library level: for every proof type, group and tuple length the builder's challenge must equal the finished proof's, and every non-response atom (identified by answering one builder under two challenges, cross-checked against field names) as well as every atom of every other ChallengeInput type (keys, Pedersen and range parameters, signatures, commitments, bare elements, byte strings, Context inputs of length 0..64 with every byte flipped) is replaced by a different valid encoding and the recomputed challenge must differ. zkAbacus level: the real customer prover is run twice with identical randomness and different contexts to find the atoms fixed before the challenge; each is replaced in turn in an EstablishProof / PayProof that is then fed to the real initialize / allow_payment and the challenge recorded by the hook must differ from the original's; likewise for each public value, the key, the range parameters and context bytes. Exhaustive over atoms of one instance per type in the quick tier.",
